@@ -43,8 +43,17 @@ class Markers(object):
     def __call__(self, rnd):
         # real files repeat commands verbatim (the same M204 S500 before every perimeter): a quarter of the instances are
         # byte-identical repeats of a recent one
-        if getattr(self, "recent", None) and rnd.random() < 0.25:
-            return rnd.choice(self.recent)
+        recent = getattr(self, "recent", None)
+        if recent and rnd.random() < 0.3:
+            return recent[-1] if rnd.random() < 0.5 else rnd.choice(recent)
+        if recent and rnd.random() < 0.1:
+            # the parameter text of a recent command under another code (M204 S500 ... M205 S500)
+            params = recent[-1].split(" ", 1)[1] if " " in recent[-1] else ""
+            others = [c for c in sorted(self.ext) if c not in ("M117",) and c != recent[-1].split(" ")[0]]
+            if params and others and not recent[-1].startswith("M117"):
+                cmd = "%s %s" % (rnd.choice(others), params)
+                self.recent = (recent + [cmd])[-5:]
+                return cmd
         cmd = self.fresh(rnd)
         self.recent = (getattr(self, "recent", []) + [cmd])[-5:]
         return cmd
